@@ -13,7 +13,7 @@ const char *const OP_NAMES[OP__COUNT] = {
     "REWRITE", "SCRIBBLE", "ABANDON",
     "enter", "step", "leave", "observe", "lookup", "lookup_ensure", "raw", "towriter", "streq",
     "w_init", "w_reset", "w_object_begin", "w_object_end", "w_array_begin", "w_array_end", "w_boolean", "w_integer", "w_double",
-    "w_string", "w_string_with_len", "w_name", "w_bytes", "w_raw", "w_verify", "w_counter", "w_string_null", "w_raw_null",
+    "w_string", "w_string_with_len", "w_name", "w_bytes", "w_raw", "w_verify", "w_counter", "w_string_null", "w_raw_null", "w_parser_to_writer",
     "choice",
 };
 
